@@ -142,7 +142,7 @@ fn parse_re(s: &[u8], i: &mut usize) -> Re {
 }
 
 #[derive(Clone, Debug)]
-struct Tok { prec: i32, is_string: bool, re: Re }
+struct Tok { prec: i32, is_string: bool, re: Re, immediate: bool }
 
 #[derive(Clone, Debug)]
 struct TokSet { word: Option<usize>, extras: usize, toks: Vec<Tok> }
@@ -156,7 +156,7 @@ const WIDE: [u32; 9] = [0x28, 0x2b, 0x2d, 0x30, 0x3b, 0x61, 0x63, 0xe9, 0x3bb];
 impl TokSet {
     fn ser(&self) -> String {
         let mut s = format!("w{}x{}", self.word.map(|w| w.to_string()).unwrap_or("-".into()), self.extras);
-        for t in &self.toks { s.push_str(&format!(";{},{},{}", t.prec, t.is_string as u8, t.re.ser())); }
+        for t in &self.toks { s.push_str(&format!(";{},{},{}", t.prec, t.is_string as u8 + 2 * t.immediate as u8, t.re.ser())); }
         s
     }
     fn parse(s: &str) -> TokSet {
@@ -168,10 +168,11 @@ impl TokSet {
         let toks = parts.map(|p| {
             let mut f = p.splitn(3, ',');
             let prec = f.next().unwrap().parse().unwrap();
-            let is_string = f.next().unwrap() == "1";
+            let flags: u8 = f.next().unwrap().parse().unwrap_or(0);
+            let is_string = flags & 1 == 1;
             let mut i = 0;
             let re = parse_re(f.next().unwrap().as_bytes(), &mut i);
-            Tok { prec, is_string, re }
+            Tok { prec, is_string, re, immediate: flags & 2 == 2 }
         }).collect();
         TokSet { word, extras, toks }
     }
@@ -186,7 +187,7 @@ impl TokSet {
             } else {
                 json!({"type":"PATTERN","value": t.re.pattern()})
             };
-            rules.insert(format!("t{i}"), json!({"type":"TOKEN","content":{"type":"PREC","value":t.prec,"content":inner}}));
+            rules.insert(format!("t{i}"), json!({"type": if t.immediate { "IMMEDIATE_TOKEN" } else { "TOKEN" },"content":{"type":"PREC","value":t.prec,"content":inner}}));
         }
         let pat = |p: &str| json!({"type":"PATTERN","value":p});
         let extras: Vec<Value> = match self.extras {
@@ -282,12 +283,12 @@ fn rand_set(rng: &mut Rng) -> TokSet {
             if !with_word && v.len() >= 2 && rng.chance(1, 6) { v.insert(1, 0x20); }
             if lits.contains(&v) { continue; }
             lits.push(v.clone());
-            toks.push(Tok { prec, is_string: true, re: Re::Lit(v) });
+            toks.push(Tok { prec, is_string: true, re: Re::Lit(v), immediate: false });
         } else {
             let re = match rng.below(4) { 0 => rand_re_with_reps(rng, &focus), 1 => rand_re(rng, 3, &focus), _ => rand_re(rng, 2, &focus) };
             if re.nullable() || toks.iter().any(|t| t.re.ser() == re.ser()) { continue; }
             if let Re::Lit(v) = &re { if lits.contains(v) { continue; } lits.push(v.clone()); }
-            toks.push(Tok { prec, is_string: false, re });
+            toks.push(Tok { prec, is_string: false, re, immediate: false });
         }
     }
     // directed family for the precedence cut-off: x (high), x y z (high, keeps the DFA alive), x y+ (low)
@@ -295,9 +296,9 @@ fn rand_set(rng: &mut Rng) -> TokSet {
         let (x, y, z) = (pick_sym(rng, &focus), pick_sym(rng, &focus), *rng.pick(&ALPHA));
         let hi = rng.range(1, 2) as i32;
         let fam = vec![
-            Tok { prec: hi, is_string: rng.chance(1, 2), re: Re::Lit(vec![x]) },
-            Tok { prec: hi - rng.below(2) as i32, is_string: true, re: Re::Lit(vec![x, y, z]) },
-            Tok { prec: 0, is_string: false, re: Re::Seq(Box::new(Re::Lit(vec![x])), Box::new(Re::Plus(Box::new(Re::Lit(vec![y]))))) },
+            Tok { prec: hi, is_string: rng.chance(1, 2), re: Re::Lit(vec![x]), immediate: false },
+            Tok { prec: hi - rng.below(2) as i32, is_string: true, re: Re::Lit(vec![x, y, z]), immediate: false },
+            Tok { prec: 0, is_string: false, re: Re::Seq(Box::new(Re::Lit(vec![x])), Box::new(Re::Plus(Box::new(Re::Lit(vec![y]))))), immediate: false },
         ];
         for t in fam {
             if let Re::Lit(v) = &t.re { if lits.contains(v) { continue; } lits.push(v.clone()); }
@@ -317,7 +318,7 @@ fn rand_set(rng: &mut Rng) -> TokSet {
             lits.push(v.clone());
             let at = rng.below(toks.len() + 1);
             let is_string = rng.chance(2, 3);
-            toks.insert(at, Tok { prec: if prec_mode == 0 { 0 } else { *rng.pick(&[0, 0, 0, 1]) }, is_string, re: Re::Lit(v) });
+            toks.insert(at, Tok { prec: if prec_mode == 0 { 0 } else { *rng.pick(&[0, 0, 0, 1]) }, is_string, re: Re::Lit(v), immediate: false });
         }
     }
     // family: classes with >= 8 ranges, used by several tokens (rendered as large character sets)
@@ -333,8 +334,15 @@ fn rand_set(rng: &mut Rng) -> TokSet {
             let re = rng.pick(&shapes).clone();
             if toks.iter().any(|t| t.re.ser() == re.ser()) { continue; }
             let at = rng.below(toks.len() + 1);
-            toks.insert(at, Tok { prec: if prec_mode == 0 { 0 } else { *rng.pick(&[0, 0, 1]) }, is_string: false, re });
+            toks.insert(at, Tok { prec: if prec_mode == 0 { 0 } else { *rng.pick(&[0, 0, 1]) }, is_string: false, re, immediate: false });
         }
+    }
+    // immediate tokens (`token.immediate`): recognised only when no extras precede them
+    if !with_word && rng.chance(1, 3) {
+        for _ in 0..rng.range(1, 3) { let i = rng.below(toks.len()); toks[i].immediate = true; }
+        // keep one ordinary token: with ONLY immediate tokens valid the lexer has no separator states at all
+        // and does not even skip extras before the end of input
+        if toks.iter().all(|t| t.immediate) { toks[0].immediate = false; }
     }
     let extras = if rng.chance(1, 2) { 0 } else { rng.range(1, EXTRAS_SHAPES - 1) };
     let mut word = None;
@@ -342,7 +350,7 @@ fn rand_set(rng: &mut Rng) -> TokSet {
         let w = rng.below(toks.len() + 1);
         let re = Re::Seq(Box::new(Re::Cls(false, vec![(0x61, 0x64), (0xe9, 0xe9), (0x3bb, 0x3bb)])),
                          Box::new(Re::Star(Box::new(Re::Cls(false, vec![(0x61, 0x64), (0x30, 0x31), (0xe9, 0xe9), (0x3bb, 0x3bb)])))));
-        toks.insert(w, Tok { prec: 0, is_string: false, re });
+        toks.insert(w, Tok { prec: 0, is_string: false, re, immediate: false });
         word = Some(w);
     }
     TokSet { word, extras, toks }
@@ -445,7 +453,7 @@ impl ModeSet {
             let is_string = f.next().unwrap() == "1";
             masks.push(f.next().unwrap().parse().unwrap());
             let mut i = 0;
-            toks.push(Tok { prec, is_string, re: parse_re(f.next().unwrap().as_bytes(), &mut i) });
+            toks.push(Tok { prec, is_string, re: parse_re(f.next().unwrap().as_bytes(), &mut i), immediate: false });
         }
         ModeSet { extras, follow, toks, masks }
     }
@@ -501,6 +509,7 @@ fn rand_mode_set(rng: &mut Rng) -> ModeSet {
     let base = loop { let b = rand_set(rng); if b.word.is_none() { break b; } };
     let mut toks: Vec<Tok> = base.toks.into_iter().filter(|t| match &t.re { Re::Lit(v) => !(v.len() == 1 && (v[0] == 0x28 || v[0] == 0x29)), _ => true }).collect();
     if toks.len() > 10 { toks.truncate(10); }
+    for t in toks.iter_mut() { t.immediate = false; }
     let n = toks.len();
     let mut masks: Vec<u8> = (0..n).map(|_| *rng.pick(&[1u8, 2, 3, 1, 2])).collect();
     if !masks.iter().any(|m| m & 1 != 0) { masks[0] |= 1; }
@@ -520,8 +529,8 @@ fn rand_mode_set(rng: &mut Rng) -> ModeSet {
             }
         }
     }
-    toks.push(Tok { prec: 0, is_string: true, re: Re::Lit(vec![0x28]) });
-    toks.push(Tok { prec: 0, is_string: true, re: Re::Lit(vec![0x29]) });
+    toks.push(Tok { prec: 0, is_string: true, re: Re::Lit(vec![0x28]), immediate: false });
+    toks.push(Tok { prec: 0, is_string: true, re: Re::Lit(vec![0x29]), immediate: false });
     masks.push(3);
     masks.push(3);
     ModeSet { extras: base.extras, follow, toks, masks }
@@ -684,7 +693,7 @@ fn rand_large_class_set(rng: &mut Rng) -> (TokSet, Vec<u32>) {
     let suffixes = [0x21u32, 0x2b, 0x3b];
     let mut toks: Vec<Tok> = Vec::new();
     let p = |rng: &mut Rng| if rng.chance(1, 4) { 1 } else { 0 };
-    toks.push(Tok { prec: p(rng), is_string: false, re: Re::Plus(Box::new(cls(&c1))) });
+    toks.push(Tok { prec: p(rng), is_string: false, re: Re::Plus(Box::new(cls(&c1))), immediate: false });
     for k in 0..rng.range(1, 3) {
         let v = variant(rng);
         let body = Re::Plus(Box::new(cls(&v)));
@@ -695,13 +704,13 @@ fn rand_large_class_set(rng: &mut Rng) -> (TokSet, Vec<u32>) {
         };
         if toks.iter().any(|t| t.re.ser() == re.ser()) { continue; }
         let at = rng.below(toks.len() + 1);
-        toks.insert(at, Tok { prec: p(rng), is_string: false, re });
+        toks.insert(at, Tok { prec: p(rng), is_string: false, re, immediate: false });
     }
     if rng.chance(1, 2) {
         let v: Vec<u32> = universe.iter().copied().filter(|c| !c1.contains(c)).collect();
-        toks.push(Tok { prec: 0, is_string: false, re: Re::Plus(Box::new(cls(&v))) });
+        toks.push(Tok { prec: 0, is_string: false, re: Re::Plus(Box::new(cls(&v))), immediate: false });
     }
-    if rng.chance(1, 2) { toks.push(Tok { prec: 0, is_string: true, re: Re::Lit(vec![*rng.pick(&suffixes)]) }); }
+    if rng.chance(1, 2) { toks.push(Tok { prec: 0, is_string: true, re: Re::Lit(vec![*rng.pick(&suffixes)]), immediate: false }); }
     // alphabet: all range boundaries of all classes and their neighbours, the suffix characters, the blank
     let mut alpha: Vec<u32> = vec![0x20];
     alpha.extend(suffixes);
